@@ -294,4 +294,10 @@ def evOk (st : St) : Ev → Bool
   | .filt f => st.filters.contains f
   | .tag t => st.tags.any (·.1 == t)
 
+/-- The first sentence of the property only (reported variables, filters, tags). -/
+def evOk1 (st : St) : Ev → Bool
+  | .get l _ => st.vars.contains l
+  | .filt f => st.filters.contains f
+  | .tag t => st.tags.any (·.1 == t)
+
 end LiquidVerif.Analysis
